@@ -166,7 +166,7 @@ def _gateN(name, pycls, fn, nmin, nmax=8):
         return {}, ins, [w]
 
     def build(self, parent, nm, ins, outs, p):
-        return pycls(parent, nm, list(ins), outs[0])
+        return pycls(parent, nm, ins, outs[0])
 
     def outs(self, p, st, iv, iw, ow):
         acc = iv[0]
@@ -291,7 +291,7 @@ def _bits(name, pycls, msbf):
         return {}, [a], [1] * w
 
     def build(self, parent, nm, ins, outs, p):
-        return pycls(parent, nm, ins[0], list(outs))
+        return pycls(parent, nm, ins[0], outs)
 
     def outs(self, p, st, iv, iw, ow):
         w = iw[0]
@@ -323,7 +323,7 @@ def _concat(name, pycls, msbf):
         return {}, ins, [tot + extra]
 
     def build(self, parent, nm, ins, outs, p):
-        return pycls(parent, nm, list(ins), outs[0])
+        return pycls(parent, nm, ins, outs[0])
 
     def outs(self, p, st, iv, iw, ow):
         order = list(zip(iv, iw))
@@ -447,7 +447,7 @@ class Demux(Kind):
         return {'k': k}, [a, s], [w] * (1 << k)
 
     def build(self, parent, nm, ins, outs, p):
-        return py4hw.Demux(parent, nm, ins[0], ins[1], list(outs))
+        return py4hw.Demux(parent, nm, ins[0], ins[1], outs)
 
     def outs(self, p, st, iv, iw, ow):
         return [iv[0] if iv[1] == i else 0 for i in range(len(ow))]
@@ -465,7 +465,7 @@ class Decoder(Kind):
         return {}, [a], [1] * n
 
     def build(self, parent, nm, ins, outs, p):
-        return py4hw.Decoder(parent, nm, ins[0], list(outs))
+        return py4hw.Decoder(parent, nm, ins[0], outs)
 
     def outs(self, p, st, iv, iw, ow):
         return [1 if iv[0] == i else 0 for i in range(len(ow))]
@@ -564,7 +564,7 @@ class PriorityEncoder(Kind):
         return {'inc': rng.random() < 0.5}, ins, [1] * n
 
     def build(self, parent, nm, ins, outs, p):
-        return py4hw.PriorityEncoder(parent, nm, list(ins), list(outs), inc_priority=p['inc'])
+        return py4hw.PriorityEncoder(parent, nm, ins, outs, inc_priority=p['inc'])
 
     def outs(self, p, st, iv, iw, ow):
         # one-hot of the winning request; inc_priority=True => highest index wins
@@ -590,7 +590,7 @@ class Minterm(Kind):
         return {'value': rng.getrandbits(n)}, ins, [1]
 
     def build(self, parent, nm, ins, outs, p):
-        return py4hw.Minterm(parent, nm, list(ins), p['value'], outs[0])
+        return py4hw.Minterm(parent, nm, ins, p['value'], outs[0])
 
     def outs(self, p, st, iv, iw, ow):
         v = 0
@@ -691,7 +691,7 @@ class AnyEqual(Kind):
         return {}, ins, [1]
 
     def build(self, parent, nm, ins, outs, p):
-        return py4hw.AnyEqual(parent, nm, list(ins), outs[0])
+        return py4hw.AnyEqual(parent, nm, ins, outs[0])
 
     def outs(self, p, st, iv, iw, ow):
         return [1 if len(set(iv)) < len(iv) else 0]
@@ -1880,3 +1880,37 @@ class IfaceInc(Kind):
 
     def outs(self, p, st, iv, iw, ow):
         return [M(iv[0] + 1, ow[0])]
+
+
+@register
+class DelayLineZero(SeqKind):
+    """DelayLine with delay=0: a legal degenerate configuration, the input is passed through combinationally"""
+    name = 'DelayLineZero'
+    mealy = True
+    weight = 0.4
+
+    def plan(self, rng, pool):
+        a, w = pool.any()
+        en = rng.random() < 0.5
+        rs = rng.random() < 0.5
+        ins = [a] + ([pool.pick(1)[0]] if en else []) + ([pool.pick(1)[0]] if rs else [])
+        return {'en': en, 'rs': rs}, ins, [w]
+
+    def build(self, parent, nm, ins, outs, p):
+        i = 1
+        en = rs = None
+        if p['en']:
+            en = ins[i]
+            i += 1
+        if p['rs']:
+            rs = ins[i]
+        return py4hw.DelayLine(parent, nm, ins[0], en, rs, outs[0], 0)
+
+    def init(self, p, iw, ow):
+        return 0
+
+    def outs(self, p, st, iv, iw, ow):
+        return [M(iv[0], ow[0])]
+
+    def nxt(self, p, st, iv, iw, ow):
+        return 0
